@@ -1,4 +1,8 @@
-"""C08 family: capture sets x nesting x flows of function values x Ref mutation / shadowing after creation."""
+"""C08 family: capture sets x nesting x flows of function values x Ref mutation / shadowing after creation;
+c08-stored: closures at every field position of a struct (layout words over closure / plain field) x source of the closure
+x where the struct is built x how the field is read back; c08-maker: top-level functions returning closures (alone, with
+state, in tuples, in structs) reaching their call as first-class values (let, alias, tuple, field, array, Vec, Ref, branch,
+argument, result, capture), the returned closures then called."""
 import itertools
 from gast import *
 
@@ -219,4 +223,261 @@ def programs(tier):
     p.fn("main", [], UNIT, Block([Let("c1", Call("make", Int(10))), Let("c2", Call("make", Int(20))),
                                   println(show_int(CallV(Var("c1"), Int(1)))), println(show_int(CallV(Var("c1"), Int(1)))), println(show_int(CallV(Var("c2"), Int(1)))), println(show_int(CallV(Var("c1"), Int(1))))], Unit))
     out.append({"prog": p, "family": "c08", "ident": "c08:returned-counter"})
+    out += stored_programs(tier)
+    out += maker_programs(tier)
+    return out
+
+
+# ---------------------------------------------------------------- closures stored at every position of a struct / variant
+# A layout is a word over {c, n}: field i holds a closure (c) or a plain value (n: int32 and string alternately).  The
+# closure of the k-th c-field has its own weight, so the printed sum tells which closure was read back from which field.
+LAYOUTS = ["c", "cn", "nc", "ncn", "nnc", "cnc", "ncc", "cnn", "nncn", "cc"]
+WEIGHTS = [10, 1000, 100000]
+
+
+def layout_types(layout):
+    ts, n = [], 0
+    for ch in layout:
+        if ch == "c":
+            ts.append(FN1)
+        else:
+            ts.append(INT32 if n % 2 == 0 else STRING)
+            n += 1
+    return ts
+
+
+def stored_program(container, layout, src, place, access, name):
+    """container: struct | enum; src: where the stored closure comes from (var = a let-bound closure, literal = written in the
+    field, made = result of a closure-returning function); place: the value is built in `run` (local) or by a function that
+    returns it (returned); access: field (s.f then call) | pattern (destructuring let / match arm)"""
+    p = Program(name)
+    prelude(p)
+    ts = layout_types(layout)
+    L = TAdt("L" + layout)
+    if container == "struct":
+        p.struct("L" + layout, [(f"f{i}", t) for i, t in enumerate(ts)])
+    else:
+        p.enum("L" + layout, [("Keep", ts), ("Nothing", [])])
+    pre, vals, k = [Let("l", Int(2))], [], 0
+    for i, t in enumerate(ts):
+        if t == FN1:
+            w = WEIGHTS[k]
+            lam = Lam([("a", INT32)], Bin("+", Bin("+", Var("a"), Bin("*", Var("p"), Int(w))), Bin("*", Var("l"), Int(w * 3))))
+            if src == "var":
+                pre.append(Let(f"c{k}", lam))
+                vals.append(Var(f"c{k}"))
+            elif src == "literal":
+                vals.append(lam)
+            else:
+                p.fn(f"make{k}", [("p", INT32)], FN1, Block([Let("l", Int(2))], lam))
+                vals.append(Call(f"make{k}", Var("p")))
+            k += 1
+        elif t == INT32:
+            vals.append(Int(3 + i))
+        else:
+            vals.append(Str(f"s{i}"))
+    if container == "struct":
+        value = Struct(L, [(f"f{i}", v) for i, v in enumerate(vals)])
+    else:
+        value = Ctor(L, "Keep", *vals)
+    if place == "returned":
+        p.fn("build", [("p", INT32)], L, Block(pre, value))
+        stmts = [Let("s", Call("build", Var("p")))]
+    else:
+        stmts = pre + [Let("s", value, ty=L)]
+    # read every field back: call the closures (argument 1, 2, ..), add the ints, print the strings
+    use, terms, k = [], [], 0
+    for i, t in enumerate(ts):
+        if container == "struct" and access == "field":
+            use.append(Let(f"g{i}", Field(Var("s"), f"f{i}")))
+        if t == FN1:
+            k += 1
+            terms.append(CallV(Var(f"g{i}"), Int(k)))
+        elif t == INT32:
+            terms.append(Var(f"g{i}"))
+        else:
+            use.append(println(Var(f"g{i}")))
+    total = terms[0]
+    for t in terms[1:]:
+        total = Bin("+", total, t)
+    if container == "struct":
+        if access == "pattern":
+            use = [Let(PStruct("L" + layout, [(f"f{i}", PVar(f"g{i}")) for i in range(len(ts))]), Var("s"))] + use
+        body = Block(stmts + use, total)
+    else:
+        body = Block(stmts, Match(Var("s"), [(PCtor("Keep", *[PVar(f"g{i}") for i in range(len(ts))]), Block(use, total)), (PCtor("Nothing"), Int(-1))]))
+    p.fn("run", [("p", INT32)], INT32, body)
+    p.fn("main", [], UNIT, Block([println(show_int(Call("run", Int(1)))), println(show_int(Call("run", Int(2))))], Unit))
+    return p
+
+
+def stored_programs(tier):
+    out, idx = [], 0
+    SRCS = ("var", "literal", "made")
+    COMBOS = [("local", "field"), ("returned", "field"), ("local", "pattern"), ("returned", "pattern")]
+    # Only structs: a closure in an enum variant payload (at any position: layouts c, nc, ncn, .. all alike) is emitted as its
+    # closure_env struct while the variant keeps the func type, which Go rejects ("bad field _i in literal of Keep") -- that is the
+    # known finding C08-closure-value-where-func-type-expected (already witnessed by flow=enum-payload), so the enum container
+    # cannot be compared and is left out of the generated set.
+    for container in ("struct",):
+        for layout in LAYOUTS:
+            for src in SRCS:
+                for place, access in COMBOS:
+                    idx += 1
+                    # quick: every layout with every source of the closure; where it is built / how it is read back rotate
+                    if tier == "quick" and (place, access) != COMBOS[(LAYOUTS.index(layout) + SRCS.index(src)) % 4]:
+                        continue
+                    ident = f"c08:stored={container}:layout={layout}:src={src}:place={place}:access={access}"
+                    out.append({"prog": stored_program(container, layout, src, place, access, f"c08_st_{idx}"), "family": "c08-stored", "ident": ident})
+    return out
+
+
+# ---------------------------------------------------------------- top-level functions that return closures, used as values
+FN0 = TFn([], INT32)
+MK1 = TFn([INT32], FN1)
+
+
+def maker_defs(p, shape):
+    """declare `make` (and `make_b`, a second maker of the same type) returning closure(s) in the given shape; returns
+    (result type, use: expr of the result -> (stmts, int32 expr) calling every returned closure)"""
+    def adder(w):
+        return Lam([("a", INT32)], Bin("+", Var("a"), Bin("*", Var("n"), Int(w))))
+    if shape == "closure":
+        R = FN1
+        p.fn("make", [("n", INT32)], R, adder(10))
+        p.fn("make_b", [("n", INT32)], R, adder(1000))
+        use = lambda r, u: ([Let(f"{u}g", r)], Bin("+", CallV(Var(f"{u}g"), Int(1)), Bin("*", CallV(Var(f"{u}g"), Int(2)), Int(3))))
+    elif shape == "counter":
+        # one closure with state: every call of the maker gives an independent cell
+        R = FN1
+        def counter(w):
+            return Block([Let("cell", Call("ref", Var("n")))],
+                         Lam([("a", INT32)], Block([Do(Call("ref_set", Var("cell"), Bin("+", Call("ref_get", Var("cell")), Var("a"))))], Bin("*", Call("ref_get", Var("cell")), Int(w)))))
+        p.fn("make", [("n", INT32)], R, counter(1))
+        p.fn("make_b", [("n", INT32)], R, counter(7))
+        use = lambda r, u: ([Let(f"{u}g", r), Let(f"{u}x", CallV(Var(f"{u}g"), Int(1)))], Bin("+", Var(f"{u}x"), Bin("*", CallV(Var(f"{u}g"), Int(2)), Int(100))))
+    elif shape == "tuple":
+        # two closures sharing one Ref cell
+        R = TTuple(FN1, FN0)
+        def pair(w):
+            return Block([Let("cell", Call("ref", Var("n"))),
+                          Let("bump", Lam([("d", INT32)], Block([Do(Call("ref_set", Var("cell"), Bin("+", Call("ref_get", Var("cell")), Var("d"))))], Call("ref_get", Var("cell"))))),
+                          Let("peek", Lam([], Bin("*", Call("ref_get", Var("cell")), Int(w))))], Tuple(Var("bump"), Var("peek")))
+        p.fn("make", [("n", INT32)], R, pair(100))
+        p.fn("make_b", [("n", INT32)], R, pair(7))
+        use = lambda r, u: ([Let(PTuple(PVar(f"{u}bump"), PVar(f"{u}peek")), r), Let(f"{u}x", CallV(Var(f"{u}bump"), Int(5)))], Bin("+", Var(f"{u}x"), CallV(Var(f"{u}peek"))))
+    elif shape == "tuple-mixed":
+        # a closure after a plain value
+        R = TTuple(INT32, FN1)
+        p.fn("make", [("n", INT32)], R, Tuple(Bin("+", Var("n"), Int(1)), adder(10)))
+        p.fn("make_b", [("n", INT32)], R, Tuple(Bin("+", Var("n"), Int(2)), adder(1000)))
+        use = lambda r, u: ([Let(PTuple(PVar(f"{u}k"), PVar(f"{u}g")), r)], Bin("+", Var(f"{u}k"), CallV(Var(f"{u}g"), Int(1))))
+    elif shape == "struct":
+        R = TAdt("R2")
+        p.struct("R2", [("tag", INT32), ("get", FN0), ("add", FN1)])
+        def rec(w):
+            return Block([Let("cell", Call("ref", Var("n")))],
+                         Struct(R, [("tag", Int(w)), ("get", Lam([], Call("ref_get", Var("cell")))),
+                                    ("add", Lam([("d", INT32)], Block([Do(Call("ref_set", Var("cell"), Bin("+", Call("ref_get", Var("cell")), Var("d"))))], Bin("*", Var("d"), Int(w)))))]))
+        p.fn("make", [("n", INT32)], R, rec(10))
+        # a struct type takes the closure environments of ONE construction site (known finding C02/C08-closure-value-where-func-type-
+        # expected), so the second maker of this shape is the first under another name
+        p.fn("make_b", [("n", INT32)], R, Call("make", Bin("+", Var("n"), Int(1))))
+        use = lambda r, u: ([Let(f"{u}s", r), Let(f"{u}get", Field(Var(f"{u}s"), "get")), Let(f"{u}add", Field(Var(f"{u}s"), "add")), Let(f"{u}x", CallV(Var(f"{u}add"), Int(4)))],
+                            Bin("+", Bin("+", Var(f"{u}x"), CallV(Var(f"{u}get"))), Field(Var(f"{u}s"), "tag")))
+    else:
+        raise ValueError(shape)
+    return R, use
+
+
+SHAPES = ["closure", "counter", "tuple", "tuple-mixed", "struct"]
+MAKER_USES = ["direct", "let", "let-annotated", "alias-chain", "tuple", "struct-field", "array", "vec", "ref-cell", "branch", "match-result", "argument", "returned",
+              "captured", "shadowing-param"]
+
+
+def maker_program(shape, use_kind, name):
+    """the maker `make` reaches its call as a first-class value through `use_kind`; the closures it returns are then called"""
+    p = Program(name)
+    prelude(p)
+    R, use = maker_defs(p, shape)
+    MK = TFn([INT32], R)
+    call = lambda f, n: CallV(f, Int(n)) if f["k"] != "fnref" else Call(f["n"], Int(n))
+    mk = FnRef("make")
+    pre = []
+    if use_kind == "direct":
+        r1, r2 = Call("make", Var("p")), Call("make", Int(7))
+    else:
+        if use_kind == "let":
+            pre = [Let("mk", mk)]
+        elif use_kind == "let-annotated":
+            pre = [Let("mk", mk, ty=MK)]
+        elif use_kind == "alias-chain":
+            pre = [Let("m0", mk), Let("m1", Var("m0")), Let("mk", Var("m1"))]
+        elif use_kind == "tuple":
+            pre = [Let("t", Tuple(Int(0), mk)), Let(PTuple(PWild, PVar("mk")), Var("t"))]
+        elif use_kind == "struct-field":
+            p.struct("M", [("k", INT32), ("mk", MK)])
+            pre = [Let("m", Struct(TAdt("M"), [("k", Int(0)), ("mk", mk)])), Let("mk", Field(Var("m"), "mk"))]
+        elif use_kind == "array":
+            pre = [Let("arr", Array(mk, FnRef("make_b"))), Let("mk", Call("array_get", Var("arr"), Int(0)), ty=MK)]
+        elif use_kind == "vec":
+            pre = [Let("vs", Call("vec_push", Call("vec_new"), mk), ty=TVec(MK)), Let("mk", Call("vec_get", Var("vs"), Int(0)), ty=MK)]
+        elif use_kind == "ref-cell":
+            pre = [Let("cell", Call("ref", mk)), Let("mk", Call("ref_get", Var("cell")))]
+        elif use_kind == "branch":
+            pre = [Let("mk", If(Bin("<", Var("p"), Int(2)), mk, FnRef("make_b")), ty=MK)]
+        elif use_kind == "match-result":
+            pre = [Let("mk", Match(Var("p"), [(PInt(1), mk), (PWild, FnRef("make_b"))]), ty=MK)]
+        elif use_kind == "captured":
+            pre = [Let("mk", mk)]
+        elif use_kind in ("argument", "returned", "shadowing-param"):
+            pre = []
+        else:
+            raise ValueError(use_kind)
+        r1, r2 = CallV(Var("mk"), Var("p")), CallV(Var("mk"), Int(7))
+    if use_kind == "argument":
+        # the maker is passed to a function that calls it and uses the closures
+        s1, e1 = use(CallV(Var("mk"), Var("p")), "u")
+        s2, e2 = use(CallV(Var("mk"), Int(7)), "v")
+        p.fn("with_maker", [("mk", MK), ("p", INT32)], INT32, Block(s1 + s2, Bin("+", e1, Bin("*", e2, Int(2)))))
+        p.fn("run", [("p", INT32)], INT32, Call("with_maker", mk, Var("p")))
+    elif use_kind == "returned":
+        # a function returns the maker
+        s1, e1 = use(CallV(Var("mk"), Var("p")), "u")
+        s2, e2 = use(CallV(Var("mk"), Int(7)), "v")
+        p.fn("pick", [("p", INT32)], MK, If(Bin("<", Var("p"), Int(2)), mk, FnRef("make_b")))
+        p.fn("run", [("p", INT32)], INT32, Block([Let("mk", Call("pick", Var("p")))] + s1 + s2, Bin("+", e1, Bin("*", e2, Int(2)))))
+    elif use_kind == "captured":
+        # a closure captures the maker value and calls it
+        s1, e1 = use(CallV(Var("mk"), Var("q")), "u")
+        s2, e2 = use(CallV(Var("h"), Var("p")), "v")
+        p.fn("run", [("p", INT32)], INT32, Block(pre + [Let("h", Lam([("q", INT32)], Block(s1, e1))), Let("v", CallV(Var("h"), Var("p")))], Bin("+", Var("v"), CallV(Var("h"), Int(7)))))
+    elif use_kind == "shadowing-param":
+        # a local named like the maker holds it
+        s1, e1 = use(CallV(Var("make"), Var("p")), "u")
+        s2, e2 = use(CallV(Var("make"), Int(7)), "v")
+        p.fn("run", [("p", INT32)], INT32, Block([Let("make", FnRef("make_b"))] + s1 + s2, Bin("+", e1, Bin("*", e2, Int(2)))))
+    else:
+        s1, e1 = use(r1, "u")
+        s2, e2 = use(r2, "v")
+        p.fn("run", [("p", INT32)], INT32, Block(pre + s1 + s2, Bin("+", e1, Bin("*", e2, Int(2)))))
+    p.fn("main", [], UNIT, Block([println(show_int(Call("run", Int(1)))), println(show_int(Call("run", Int(2))))], Unit))
+    return p
+
+
+def maker_programs(tier):
+    out, idx = [], 0
+    for shape in SHAPES:
+        for use_kind in MAKER_USES:
+            idx += 1
+            # A maker whose result holds closures outside a struct (closure, counter, tuple, tuple-mixed) is emitted with the
+            # closure_env struct(s) in its Go result type, so the maker itself no longer has the Go type of its source function
+            # type: storing it in a struct field / array / Vec / Ref, mixing it with another maker in a branch or match, passing
+            # it as an argument or returning it is rejected by Go on the unchanged tree ("bad field mk", "bad element", "append
+            # arguments", "argument not assignable", "cannot use value in assignment") -- the root cause of the known finding
+            # C08-closure-value-where-func-type-expected one level up.  Those combinations cannot be compared and are left out;
+            # a maker returning a struct of closures keeps its type and goes through every use.
+            if shape != "struct" and use_kind in ("struct-field", "array", "vec", "ref-cell", "branch", "match-result", "argument", "returned"):
+                continue
+            out.append({"prog": maker_program(shape, use_kind, f"c08_mk_{idx}"), "family": "c08-maker", "ident": f"c08:maker-returns={shape}:maker-used-as={use_kind}"})
     return out
